@@ -69,6 +69,15 @@ func (r *ReceivedMessageReader[C]) loop(loopDone chan struct{}, readingMessages 
 			r.private.mutex.Lock()
 			readingMessages.Store(true)
 			r.private.mutex.Unlock()
+			// If this loop was replaced while the message was being processed, it must not
+			// take another message from the queue: select picks randomly among ready cases,
+			// so a retired loop could otherwise still win the queue and process messages
+			// concurrently with (and out of order with respect to) the new loop.
+			select {
+			case <-loopDone:
+				return
+			default:
+			}
 		// if the client is closed, the loop will be closed
 		case <-r.cc.Done():
 			return
